@@ -179,6 +179,19 @@ class Ev:
                 return True
         return name in self.glob
 
+    def _elts(self, elts, env):
+        """the values of a list of element / argument expressions, starred ones spread out (python's rule)"""
+        out = []
+        for e in elts:
+            if isinstance(e, ast.Starred):
+                v = self.ev(e.value, env)
+                if not isinstance(v, (list, tuple, LazySeq)):
+                    raise EvalError("* of a non-sequence")
+                out.extend(list(v))
+            else:
+                out.append(self.ev(e, env))
+        return out
+
     def _operator_keywords(self, name, n, env, nseq=1):
         """the function of Select / SelectMany / Where may be given under the name ObjectStream declares for it"""
         if not n.keywords:
@@ -268,8 +281,18 @@ class Ev:
                 fn = getattr(recv, f.attr)
             else:
                 fn = self.ev(f, env)
-            args = [self.ev(a, env) for a in n.args]
-            kw = {k.arg: self.ev(k.value, env) for k in n.keywords}
+            args = self._elts(n.args, env)
+            kw = {}
+            for k in n.keywords:
+                if k.arg is None:
+                    m = self.ev(k.value, env)
+                    if not isinstance(m, dict) or any(x in kw for x in m):
+                        raise EvalError("** mapping")
+                    kw.update(m)
+                elif k.arg in kw:
+                    raise EvalError("keyword given twice")
+                else:
+                    kw[k.arg] = self.ev(k.value, env)
             return fn(*args, **kw)
         if t is ast.BinOp:
             return BIN[type(n.op)](self.ev(n.left, env), self.ev(n.right, env))
@@ -296,11 +319,20 @@ class Ev:
         if t is ast.IfExp:
             return self.ev(n.body if self.ev(n.test, env) else n.orelse, env)
         if t is ast.Tuple:
-            return tuple(self.ev(e, env) for e in n.elts)
+            return tuple(self._elts(n.elts, env))
         if t is ast.List:
-            return [self.ev(e, env) for e in n.elts]
+            return self._elts(n.elts, env)
         if t is ast.Dict:
-            return Rec((self.ev(k, env), self.ev(v, env)) for k, v in zip(n.keys, n.values))
+            out = Rec()
+            for k, v in zip(n.keys, n.values):
+                if k is None:  # {**mapping}
+                    m = self.ev(v, env)
+                    if not isinstance(m, dict):
+                        raise EvalError("** of a non-mapping")
+                    out.update(m)
+                else:
+                    out[self.ev(k, env)] = self.ev(v, env)
+            return out
         if t is ast.Subscript:
             v = self.ev(n.value, env)
             s = n.slice
